@@ -408,7 +408,7 @@ class sptenmat:
         >>> ST1.nnz
         1
         """
-        return len(self.vals)
+        return self.vals.size
 
     def norm(self) -> float:
         """Compute the norm of the :class:`pyttb.sptenmat`.
